@@ -373,3 +373,27 @@ pub fn gen_ident(rng: &mut Rng, n: usize, _thorough: bool) -> Vec<Case> {
     }
     out
 }
+
+/// derived one-byte/two-byte accessors, exhaustively over their whole domain
+pub fn gen_acc(rng: &mut Rng, _n: usize, thorough: bool) -> Vec<Case> {
+    let mut out = vec![];
+    let step = if thorough { 1 } else { 13 };
+    let mut v = 0u32;
+    while v <= 0xffff {
+        out.push((format!("acc versym {}", v), "-".into()));
+        v += step;
+    }
+    for v in [0u32, 1, 2, 0x7fff, 0x8000, 0x8001, 0x8002, 0xffff, 0xfffe] {
+        out.push((format!("acc versym {}", v), "-".into()));
+    }
+    for info in 0..=255u32 {
+        out.push((format!("acc sym {} {} {}", info, rng.below(256), rng.below(3)), "-".into()));
+    }
+    for other in 0..=255u32 {
+        out.push((format!("acc sym {} {} {}", rng.below(256), other, rng.below(0x10000)), "-".into()));
+    }
+    for shndx in [0u32, 1, 0xff00, 0xfff1, 0xffff] {
+        out.push((format!("acc sym 0 0 {}", shndx), "-".into()));
+    }
+    out
+}
